@@ -1,7 +1,7 @@
 """C13 — output depends only on data directory and options, never on scheduling or reruns.
 Level `other`: the order-independence of an indexed collect and the pre-state independence of the output protocol are Coq theorems;
 rayon's scheduler, the kernel and rusty-leveldb are exercised (thread counts, contention, reruns), not proved."""
-import os, hashlib, subprocess, shutil, copy
+import os, hashlib, subprocess, shutil, copy, struct
 from ..chain import *
 from .. import gen, core, run
 THEOREMS = core.pinned('C13')
@@ -28,10 +28,17 @@ def digest_dir(d):
         if os.path.isfile(p): out[n] = hashlib.sha256(open(p, 'rb').read()).hexdigest()
     return out
 
+def dump_index(ck, dd):
+    # the dumper iterates the database with rusty-leveldb too: same possible spin as in run.run_impl, same remedy
+    for attempt in range(3):
+        try: return subprocess.run([ck.tools.ldbw, 'dump', os.path.join(dd, 'index')], capture_output=True, timeout=120).stdout
+        except subprocess.TimeoutExpired: run.RETRIES.append(('ldbw dump', dd, attempt))
+    return b''
+
 def explore(ck):
     r = ck.rng; quick = ck.tier == 'quick'
     ck.rule = ('the real binary on chains with 40-120 transactions per block and up to 60 outputs per transaction (the same hash under P2PKH and P2SH side by side), RAYON_NUM_THREADS in {1,2,3,8,16,64}, '
-               'repeated runs sharing ONE data directory (index reopened) and ONE dump folder pre-seeded with stale *.tmp files longer than the new output and with earlier results, under CPU contention; plus a 48-block index with stale siblings at every third height and a range whose unspent/balances result is header-only; '
+               'repeated runs sharing ONE data directory (index reopened) and ONE dump folder pre-seeded with stale *.tmp files longer than the new output and with earlier results, under CPU contention; plus a 48-block index with stale siblings at every third height and a range whose unspent/balances result is header-only, a --verify chain with blocks of 192 and 320 transactions, simplestats -vv with a slow and a fast stdout consumer; '
                'every run must equal the single model output (csvdump byte for byte, simplestats, opreturn lines, unspent/balances row sets); SHA-256 of blk*.dat / xor.dat and the dumped key/value '
                'set of the index must be the same before and after. Non-trivial: a block with >= 32 transactions or a transaction with >= 32 outputs; distinct by (case, threads, callback, run number).')
     ck.explanation = ('Proved in Coq: writing result i into slot i in any completion order equals the sequential map (collect_any_order), the model functions are pure, and the output protocol does not '
@@ -53,17 +60,20 @@ def explore(ck):
     # a range without any address-bearing output: unspent / balances consist of the header only and must still replace an earlier result of the same name
     from . import c07
     cases.append(Case('noaddr13', 'litecoin').simple_layout(c07.noaddr_history(r, 4)[0]))
+    # --verify over blocks of 192 and 320 transactions (merkle levels wide enough for any parallel hashing scheme to split them), real genesis block
+    from . import c09
+    vb = c09.chain_with_counts(r, 'bitcoin', [1, 5, 320, 192, 2], True); vc = Case('verify13', 'bitcoin').simple_layout(vb); vc.verify = True; cases.append(vc)
     models = run.run_model(ck.tools, cases, ['csv', 'unspent', 'balances', 'opreturn', 'stats'])
     threads = [1, 2, 3, 8, 16, 64]
     for c in cases:
         m = models[c.id]
         dd = os.path.join(ck.tools.work, 'dd13_' + c.id); c.materialise(dd, ck.tools.ldbw)
-        before = digest_dir(dd); idx_before = subprocess.run([ck.tools.ldbw, 'dump', os.path.join(dd, 'index')], capture_output=True).stdout
+        before = digest_dir(dd); idx_before = dump_index(ck, dd)
         out = os.path.join(ck.tools.work, 'out13_' + c.id); os.makedirs(out, exist_ok=True)
         # stale files: longer than anything this run writes, and earlier results under the final names
         stale = {}
         last = m['status'][2]
-        for stem in ['blocks', 'transactions', 'tx_in', 'tx_out', 'unspent', 'balances']:
+        for stem in sum((run.stems(cb_) for cb_ in ('csv', 'unspent', 'balances')), []):
             stale['%s.csv.tmp' % stem] = b'STALE;' * 400000
             stale['%s-0-%s.csv' % (stem, last)] = b'old result\n' * 1000          # an earlier result under the same final name: must be replaced
             stale['%s-0-99.csv' % stem] = b'unrelated earlier result\n'              # another run's result: must stay untouched
@@ -79,7 +89,7 @@ def explore(ck):
                             with open(os.path.join(out, name), 'wb') as f: f.write(data)
                         rr = run.run_impl(ck.tools, c, cb, datadir=dd, outdir=out if cb in run.NEEDS_DIR else None, env={'RAYON_NUM_THREADS': str(th)})
                         # only the files of this callback are compared
-                        stems = {'csv': ['blocks', 'transactions', 'tx_in', 'tx_out'], 'unspent': ['unspent'], 'balances': ['balances']}.get(cb, [])
+                        stems = run.stems().get(cb, [])
                         touched = [nm for nm, d in rr.files.items() if nm.endswith('-0-99.csv') and d != stale[nm]]
                         if touched: ck.disagreement('unrelated files of the dump folder were modified', str(touched), c, in_domain=True)
                         rr.files = {nm: d for nm, d in rr.files.items() if any(nm.startswith(s + '-') or nm == s + '.csv.tmp' for s in stems) and not nm.endswith('-0-99.csv')
@@ -90,8 +100,48 @@ def explore(ck):
                         if diffs: ck.disagreement('%s with %d threads, run %d on %s' % (cb, th, rep, c.id), '\n'.join(diffs), c, in_domain=True)
         finally:
             for p in load: p.kill()
-        after = digest_dir(dd); idx_after = subprocess.run([ck.tools.ldbw, 'dump', os.path.join(dd, 'index')], capture_output=True).stdout
+        after = digest_dir(dd); idx_after = dump_index(ck, dd)
         if before != after: ck.disagreement('blk*.dat / xor.dat modified by the runs on ' + c.id, '%s' % [k for k in before if before[k] != after.get(k)], c, in_domain=True)
         if idx_before != idx_after or not idx_before: ck.disagreement('key/value content of the block index changed on ' + c.id, 'before %d bytes, after %d bytes' % (len(idx_before), len(idx_after)), c, in_domain=True)
         ck.sample(dict(case=c.id, coin=c.coin, xor=bool(c.xor), runs=n, tx_per_block=[len(l) for l in [m['csv'][1]]], files_unchanged=(before == after), index_pairs=idx_before.count(b'\n')))
         shutil.rmtree(dd, ignore_errors=True); shutil.rmtree(out, ignore_errors=True)
+
+    slow_consumer(ck)
+
+def slow_consumer(ck):
+    """simplestats -vv on a chain of several hundred blocks with stdout drained slowly (1 KiB every few milliseconds): the figures must not depend on how fast the consumer reads"""
+    import threading, time as _t
+    r = ck.rng; quick = ck.tier == 'quick'; hung = False
+    n = 1500 if quick else 4000
+    blocks = []; prev = b'\x00' * 32
+    for h in range(n):
+        b = Block(prev, [coinbase_tx(h, [(50 * 10**8, P2PKH(gen.rb(r, 20)))], extra=struct.pack('<I', h))], time=1300000000 + 600 * h); blocks.append(b); prev = b.hash
+    c = Case('slow13', 'bitcoin').simple_layout(blocks)
+    m = run.run_model(ck.tools, [c], ['stats'])[c.id]
+    dd = os.path.join(ck.tools.work, 'dd13_slow'); c.materialise(dd, ck.tools.ldbw)
+    for speed in ('fast', 'slow', 'slow-retry'):
+        if speed == 'slow-retry':
+            if not hung: break
+            speed = 'slow'
+        hung = False
+        p = subprocess.Popen([ck.tools.bin, '-d', dd, '-vv'] + c.args() + ['simplestats'], stdout=subprocess.PIPE, stderr=subprocess.PIPE, env=dict(os.environ, RAYON_NUM_THREADS='4'))
+        chunks = []; err = []
+        if speed == 'slow':
+            import fcntl
+            try: fcntl.fcntl(p.stdout.fileno(), 1031, 4096)          # F_SETPIPE_SZ: a small pipe, so that the writer side really has to wait for the reader
+            except OSError: pass
+        te = threading.Thread(target=lambda: err.append(p.stderr.read())); te.start()
+        t_start = _t.time()
+        watchdog = threading.Timer(240, p.kill); watchdog.start()      # see run.run_impl: the index load can spin in rusty-leveldb; a killed run is repeated once
+        while True:
+            d = os.read(p.stdout.fileno(), 1024 if speed == 'slow' else 1 << 20)
+            if not d: break
+            chunks.append(d)
+            if speed == 'slow': _t.sleep(0.008)
+        p.wait(); te.join(); watchdog.cancel()
+        if p.returncode == -9 and _t.time() - t_start > 200:
+            hung = True; run.RETRIES.append(('slow13', 'stats', speed)); continue
+        rr = run.ImplResult(); rr.rc = p.returncode; rr.stdout = b''.join(chunks); rr.stderr = err[0] if err else b''; rr.files = {}; rr.last = None; rr.error_height = None; rr.error_kind = None
+        diffs = run.cmp_stats(rr, m, c); ck.evaluated(); ck.count('slow/fast stdout consumer runs'); ck.nontrivial(('slow13', speed))
+        if diffs: ck.disagreement('simplestats -vv with a %s stdout consumer on %d blocks' % (speed, n), '\n'.join(diffs)[:1500], c, in_domain=True)
+    shutil.rmtree(dd, ignore_errors=True)
